@@ -214,7 +214,18 @@ class FieldData:
            # before the line is unregistered, at every validation level
            gfapy.Field._validate_gfa_field(value,
                self._field_or_default_datatype(fieldname, value), fieldname)
-         if value is not None and not gfapy.is_placeholder(value):
+         if (value is None or gfapy.is_placeholder(value)) and \
+             self.record_type != "P":
+           # other lines refer to this line by its name
+           for k in self.__class__.DEPENDENT_LINES + \
+                    self.__class__.OTHER_REFERENCES:
+             if self._refs.get(k):
+               raise gfapy.RuntimeError(
+                 "Line: {}\n".format(str(self))+
+                 "cannot be left without a name, "+
+                 "as other lines ({}) refer to it".format(k))
+         if value is not None and not gfapy.is_placeholder(value) and \
+             self.__class__.STORAGE_KEY == "name":
            previous = self._gfa.line(value)
            if previous is not None and previous is not self:
              raise gfapy.NotUniqueError(
@@ -226,6 +237,8 @@ class FieldData:
     if value is None:
       if fieldname in self._data:
         self._data.pop(fieldname)
+      # the tag is deleted, with its datatype (as by delete())
+      self._datatype.pop(fieldname, None)
     else:
       if self.vlevel >= 3:
         self._field_or_default_datatype(fieldname, value)
